@@ -181,9 +181,22 @@ Definition alt_matches (subkey : bool) (key_created : N) (attrs : list (bytes * 
   | _, _, _ => false
   end.
 
+(* Several valid self-signatures on one identity / binding signatures on one subkey: RFC 4880 5.2.3.3
+   recommends, and GnuPG implements, that the MOST RECENT one counts (getkey.c: sig->timestamp >=
+   sigdate, i.e. among signatures made in the same second the last one in the stream).  The
+   reference lists every valid self-signature as (flags created life); the description must equal
+   one with the maximal creation time - for equal maximal times RFC 4880 gives no rule and either
+   is accepted.  A fourth element 1 pins an alternative whatever its date (a self-signature whose
+   own validity period has passed: GnuPG skips it, a reader that does not look at the clock uses it). *)
+Definition alt_created (a : arg) : N := N_of_arg (arg_nth 1 a).
+Definition alt_pinned (a : arg) : bool := Z.eqb (arg_Z (arg_nth 3 a)) 1.
+Definition latest_alts (alts : list arg) : list arg :=
+  let mx := fold_right (fun a m => N.max (alt_created a) m) 0 alts in
+  filter (fun a => alt_pinned a || (alt_created a =? mx)) alts.
+
 Definition sig_attrs_ok (subkey : bool) (key_created : N) (attrs : list (bytes * bytes)) (alts : list arg) : bool :=
   Nat.eqb (count_attr (bs "Usage") attrs) 1 && Nat.eqb (count_attr (bs "Created") attrs) 1 &&
-  Nat.eqb (count_attr (bs "Expires") attrs) 1 && existsb (alt_matches subkey key_created attrs) alts.
+  Nat.eqb (count_attr (bs "Expires") attrs) 1 && existsb (alt_matches subkey key_created attrs) (latest_alts alts).
 
 (* key reference (fpr algo oid bits created ...) against the key attributes *)
 Definition key_attrs_ok (kr : arg) (attrs : list (bytes * bytes)) : option string :=
@@ -240,19 +253,37 @@ Definition find_child (name : bytes) (l : list info) : list info :=
 
 Definition is_subkey_child (i : info) : bool := bytes_eqb (i_desc i) (bs "GPG/PGP subkey").
 
+(* a reference entry whose last element is 1 is OPTIONAL: a revoked identity / subkey may be left
+   out; when it is listed, its attributes must be right all the same *)
+Definition ref_optional (idx : nat) (r : arg) : bool := Z.eqb (arg_Z (arg_nth idx r)) 1.
+Definition kid_has_fpr (r : arg) (k : info) : bool :=
+  match attr_lookup (bs "Fingerprint") (i_attrs k) with
+  | Some f => bytes_eqb f (hex_of true (arg_bytes (arg_nth 0 r)))
+  | None => false
+  end.
+
 Fixpoint check_subkeys (refs : list arg) (kids : list info) : option string :=
-  match refs, kids with
-  | [], [] => None
-  | r :: refs', k :: kids' =>
-      match key_attrs_ok r (i_attrs k) with
-      | Some e => Some e
-      | None =>
-          if sig_attrs_ok true (N_of_arg (arg_nth 4 r)) (i_attrs k) (arg_list (arg_nth 5 r))
-          then check_subkeys refs' kids'
-          else Some "subkey usage / creation date / expiry do not equal what its binding signature and the subkey encode"%string
+  match refs with
+  | [] =>
+      match kids with
+      | [] => None
+      | _ :: _ => Some "a subkey is listed that the key does not bind"%string
       end
-  | [], _ :: _ => Some "a subkey is listed that the key does not bind"%string
-  | _ :: _, [] => Some "a bound subkey is missing from the description"%string
+  | r :: refs' =>
+      match kids with
+      | [] => if ref_optional 6 r then check_subkeys refs' []
+              else Some "a bound subkey is missing from the description"%string
+      | k :: kids' =>
+          if ref_optional 6 r && negb (kid_has_fpr r k) then check_subkeys refs' kids
+          else
+            match key_attrs_ok r (i_attrs k) with
+            | Some e => Some e
+            | None =>
+                if sig_attrs_ok true (N_of_arg (arg_nth 4 r)) (i_attrs k) (arg_list (arg_nth 5 r))
+                then check_subkeys refs' kids'
+                else Some "subkey usage / creation date / expiry do not equal what its binding signature and the subkey encode"%string
+            end
+      end
   end.
 
 Fixpoint check_identities (key_created : N) (refs : list arg) (kids : list info) : option string :=
@@ -264,7 +295,8 @@ Fixpoint check_identities (key_created : N) (refs : list arg) (kids : list info)
           if sig_attrs_ok false key_created (i_attrs k) (arg_list (arg_nth 1 r))
           then check_identities key_created refs' kids
           else Some "identity usage / creation date / expiry do not equal what its self-signature and the key encode"%string
-      | [] => Some "an identity with a valid self-signature is missing from the description"%string
+      | [] => if ref_optional 2 r then check_identities key_created refs' kids
+              else Some "an identity with a valid self-signature is missing from the description"%string
       | _ => Some "an identity is listed more than once"%string
       end
   end.
@@ -281,11 +313,21 @@ Definition check_description (private : bool) (ref : arg) (i : info) : option st
   | None =>
       let id_kids := filter (fun k => negb (is_subkey_child k)) (i_children i) in
       let sub_kids := filter is_subkey_child (i_children i) in
-      if negb (Nat.eqb (length id_kids) (length ids)) then Some "the listed identities are not exactly those with a valid self-signature"%string
+      if negb (forallb (fun k => existsb (fun r => bytes_eqb (i_desc k) (arg_bytes (arg_nth 0 r))) ids) id_kids)
+      then Some "the listed identities are not exactly those with a valid self-signature"%string
       else match check_identities (N_of_arg (arg_nth 4 pr)) ids id_kids with
       | Some e => Some e
       | None => check_subkeys subs sub_kids
       end
+  end.
+
+(* reference kind 4: a stream that RFC 4880 does not allow as it stands (partial lengths on key
+   packets, octets behind the fields of a packet, message packets in a key block): a reader may
+   reject it; if it describes it, then as the key that the packet framing of RFC 4880 4.2 yields *)
+Definition check_ref (private : bool) (ref : arg) (i : info) : option string :=
+  match i with
+  | Info [] [] [] => if Z.eqb (arg_Z (arg_nth 0 ref)) 4 then None else check_description private ref i
+  | _ => check_description private ref i
   end.
 
 Definition verdict (o : option string) : arg :=
